@@ -314,11 +314,32 @@ def enum_cls(tbl):
     return _ENUMS[key]
 
 
+def flag_extras(tbl):
+    """composite members added to every second generated flag class: ALL = the OR of the single-bit members (an alias made of
+    named bits) and MASK = two adjacent bits that NO member names (a multi-bit mask member, like a KIND_MASK).  Python does not
+    iterate composite members, so they change nothing in the statement: named bits are shown by name, all other bits - the
+    mask's included - travel in the left-over int."""
+    vals = [z for _, z in tbl]
+    if not vals or any(z <= 0 or z & (z - 1) for z in vals) or sum(vals) % 2 == 0 and len(vals) % 2 == 0:
+        return []
+    used = 0
+    for z in vals:
+        used |= z
+    out = []
+    if len(vals) >= 2:
+        out.append(("ALL", used))
+    for i in range(0, 7):
+        if not used & (3 << i):
+            out.append(("MASK", 3 << i))
+            break
+    return out
+
+
 def flag_cls(tbl):
     _, dt = mods()
     key = ("f", tbl)
     if key not in _ENUMS:
-        _ENUMS[key] = dt.IntFlag("GenFlag%d" % len(_ENUMS), [("F%d" % n, z) for n, z in tbl])
+        _ENUMS[key] = dt.IntFlag("GenFlag%d" % len(_ENUMS), [("F%d" % n, z) for n, z in tbl] + flag_extras(tbl))
     return _ENUMS[key]
 
 
